@@ -34,6 +34,7 @@ int MPI_Test(MPI_Request*,int*,MPI_Status*); int MPI_Waitsome(int,MPI_Request*,i
 int MPI_Cancel(MPI_Request*); int MPI_Get_count(const MPI_Status*,MPI_Datatype,int*);
 double MPI_Wtime(); int MPI_Error_string(int,char*,int*);
 // harness side
+void simmpi_gate(int kind, int who, int epoch, int count, int max_steps);   // directed schedules (see simmpi.cpp)
 void simmpi_log(const char* line);          // goes into the coordinator's totally ordered log
 int  sim_main(int argc, char** argv);       // defined by the harness; runs in every rank process
 }
